@@ -51,7 +51,7 @@ Example C13_perl_ex2 : fst (perl_parse_ucd [97;123;49;125]) = Err (PerlError [12
 Proof. vm_compute. reflexivity. Qed.
 
 (* ---------------------------------------------------------------- python-brace ---------------- *)
-From I18n Require Import Generated.PyConsts Generated.PyFmtInfo Model.FmtPyBrace Spec.CPyFormat Proofs.FmtPyBrace Proofs.FmtPyBraceGen.
+From I18n Require Import Generated.PyConsts Generated.PyFmtInfo Model.FmtPyBrace Spec.CPyFormat Proofs.FmtPyBrace Proofs.FmtPyBraceMarkup Proofs.FmtPyBraceGen.
 
 (* pybrace_parse_gen      : model of lib/strformat/pybrace.py with the generated tables (what is extracted and compared)
    cpy_markup_ok          : Spec/CPyFormat.v part A, the iterator behind string.Formatter().parse
@@ -88,6 +88,25 @@ Theorem C13_py_accept_implies_cpython_parses_refuted :
   exists sg, pybrace_parse_gen [123;58;123;97;91;125;93;125;125] = Ok sg /\ cpy_markup_ok [123;58;123;97;91;125;93;125;125] = false.
 Proof. eexists. split; vm_compute; reflexivity. Qed.
 Print Assumptions C13_py_accept_implies_cpython_parses_refuted.
+
+(* ... and outside that defect it holds: for every table set in which digits and word characters are not one of { } : ! [ ,
+   a string the parser accepts, none of whose nested fields has a brace in its name (nested_guard), is accepted by
+   Python's own parser (the iterator behind string.Formatter().parse) *)
+Theorem C13_py_accept_implies_cpython_parses_guarded : forall U M, ucd_chars U -> forall s sg,
+  pybrace_parse U M s = Ok sg -> nested_guard U (S (length s)) s = true -> cpy_markup_ok s = true.
+Proof. exact accept_implies_markup. Qed.
+Print Assumptions C13_py_accept_implies_cpython_parses_guarded.
+
+Theorem C13_py_accept_implies_cpython_parses_generated_tables : forall s sg,
+  pybrace_parse_gen s = Ok sg -> nested_guard gen_ucd (S (length s)) s = true -> cpy_markup_ok s = true.
+Proof. exact gen_accept_implies_markup. Qed.
+Print Assumptions C13_py_accept_implies_cpython_parses_generated_tables.
+
+(* a string rejected by Python's parser is rejected with the parser's own error (both guards: D16 and D3) *)
+Theorem C13_py_reject_if_cpython_rejects_guarded : forall U M, ucd_chars U -> ucd_ok U -> digits_are_decimal U -> forall s,
+  cpy_markup_ok s = false -> nested_guard U (S (length s)) s = true -> exists e, pybrace_parse U M s = Err e.
+Proof. exact reject_if_markup_rejects. Qed.
+Print Assumptions C13_py_reject_if_cpython_rejects_guarded.
 
 (* D15: accepted with type int, but str.format rejects every int: "{:,x}" and "{:+c}" *)
 Theorem C13_py_flat_formats_refuted :
